@@ -293,6 +293,58 @@ pub proof fn lemma_c13_raw(s: Seq<u8>)
     }
 }
 
+/// a decoded address value re-encodes to the bytes it was decoded from
+pub proof fn lemma_enc_of_decoded_v4(a: V2Addresses, ab: Seq<u8>)
+    requires v2_addr_matches(a, 0x10u8, ab), ab.len() == 12
+    ensures v2_addr_enc(a) =~= ab
+{
+    broadcast use crate::prelude::prelude_axioms;
+    let x = a->IPv4_0;
+    assert(ab.subrange(0, 4) =~= v4_octets(x.source_address));
+    assert(ab.subrange(4, 8) =~= v4_octets(x.destination_address));
+    lemma_be16_range(ab[8], ab[9]); lemma_be16_range(ab[10], ab[11]);
+    assert(be16_bytes(x.source_port as int) =~= seq![ab[8], ab[9]]);
+    assert(be16_bytes(x.destination_port as int) =~= seq![ab[10], ab[11]]);
+    let e = v2_addr_enc(a);
+    assert(e.len() == 12);
+    assert forall|i: int| 0 <= i < 12 implies e[i] == ab[i] by {
+        if i < 4 { assert(ab.subrange(0, 4)[i] == ab[i]); }
+        else if i < 8 { assert(ab.subrange(4, 8)[i - 4] == ab[i]); }
+    }
+}
+pub proof fn lemma_enc_of_decoded_v6(a: V2Addresses, ab: Seq<u8>)
+    requires v2_addr_matches(a, 0x20u8, ab), ab.len() == 36
+    ensures v2_addr_enc(a) =~= ab
+{
+    broadcast use crate::prelude::prelude_axioms;
+    let x = a->IPv6_0;
+    assert(ab.subrange(0, 16) =~= v6_octets(x.source_address));
+    assert(ab.subrange(16, 32) =~= v6_octets(x.destination_address));
+    lemma_be16_range(ab[32], ab[33]); lemma_be16_range(ab[34], ab[35]);
+    assert(be16_bytes(x.source_port as int) =~= seq![ab[32], ab[33]]);
+    assert(be16_bytes(x.destination_port as int) =~= seq![ab[34], ab[35]]);
+    let e = v2_addr_enc(a);
+    assert(e.len() == 36);
+    assert forall|i: int| 0 <= i < 36 implies e[i] == ab[i] by {
+        if i < 16 { assert(ab.subrange(0, 16)[i] == ab[i]); }
+        else if i < 32 { assert(ab.subrange(16, 32)[i - 16] == ab[i]); }
+    }
+}
+pub proof fn lemma_enc_of_decoded_unix(a: V2Addresses, ab: Seq<u8>)
+    requires v2_addr_matches(a, 0x30u8, ab), ab.len() == 216
+    ensures v2_addr_enc(a) =~= ab
+{
+    let x = a->Unix_0;
+    assert(ab.subrange(0, 108) =~= x.source@);
+    assert(ab.subrange(108, 216) =~= x.destination@);
+    let e = v2_addr_enc(a);
+    assert(e.len() == 216);
+    assert forall|i: int| 0 <= i < 216 implies e[i] == ab[i] by {
+        if i < 108 { assert(ab.subrange(0, 108)[i] == ab[i]); }
+        else { assert(ab.subrange(108, 216)[i - 108] == ab[i]); }
+    }
+}
+
 // [props: C13]
 /// ... and so does rebuilding from the decoded address value (family specified) with the
 /// control bytes recomposed from the decoded command / transport / family
@@ -303,33 +355,14 @@ pub proof fn lemma_c13_decoded(s: Seq<u8>, h: V2Header)
            let body = v2_addr_enc(h.addresses) + tb;
            v2_wire(0x20u8 | cmd_code(h.command), fam_code(v2_family_of_addresses(h.addresses)) | proto_code(h.protocol), body.len() as int, body) =~= s }),
 {
-    broadcast use crate::prelude::prelude_axioms;
     lemma_nibbles();
     lemma_c13_raw(s);
     let f = hi_nib(s[13]);
     let ab = s.subrange(16, 16 + fam_size(f));
-    // the decoded value re-encodes to the address bytes
-    assert(v2_addr_enc(h.addresses) =~= ab) by {
-        if f == 0x10u8 {
-            let x = h.addresses->IPv4_0;
-            assert(ab.subrange(0, 4) =~= v4_octets(x.source_address));
-            assert(ab.subrange(4, 8) =~= v4_octets(x.destination_address));
-            lemma_be16_range(ab[8], ab[9]); lemma_be16_range(ab[10], ab[11]);
-            assert(be16_bytes(x.source_port as int) =~= seq![ab[8], ab[9]]);
-            assert(be16_bytes(x.destination_port as int) =~= seq![ab[10], ab[11]]);
-        } else if f == 0x20u8 {
-            let x = h.addresses->IPv6_0;
-            assert(ab.subrange(0, 16) =~= v6_octets(x.source_address));
-            assert(ab.subrange(16, 32) =~= v6_octets(x.destination_address));
-            lemma_be16_range(ab[32], ab[33]); lemma_be16_range(ab[34], ab[35]);
-            assert(be16_bytes(x.source_port as int) =~= seq![ab[32], ab[33]]);
-            assert(be16_bytes(x.destination_port as int) =~= seq![ab[34], ab[35]]);
-        } else {
-            let x = h.addresses->Unix_0;
-            assert(ab.subrange(0, 108) =~= x.source@);
-            assert(ab.subrange(108, 216) =~= x.destination@);
-        }
-    }
+    if f == 0x10u8 { lemma_enc_of_decoded_v4(h.addresses, ab); }
+    else if f == 0x20u8 { lemma_enc_of_decoded_v6(h.addresses, ab); }
+    else { lemma_enc_of_decoded_unix(h.addresses, ab); }
+    assert(v2_addr_enc(h.addresses) == ab);
     assert(fam_code(v2_family_of_addresses(h.addresses)) == f);
     assert((0x20u8 | cmd_code(h.command)) == s[12]) by {
         assert(hi_nib(s[12]) == 0x20u8);
